@@ -21,6 +21,7 @@ import (
 func init() {
 	Register(&Prop{
 		ID: "C14", Bubble: true, Run: runC14, QuickRuns: 2500,
+		ExpectedProbes: []string{"recv_send_overlapped", "unary_calls_overlapped"},
 		Rule: "one run = one interceptor kind (unary server, unary client, server stream wrapper) with a seeded option combination (limiter given or default, each classifier given or default, custom limit-exceeded code and response) driven through a seeded sequence of calls / RecvMsg / SendMsg operations under a fault plan (limiter refuses call k, handler / invoker / stream errors such as io.EOF, context.Canceled and status errors at seeded positions, classifier answers among success / ignore / dropped); a quarter of the stream runs put RecvMsg and SendMsg of one stream on two tasks over real limit-1 limiters under a seeded schedule; " +
 			"oracle from the event log: Acquire on the right limiter precedes the wrapped call, wrapped call iff granted, exactly one listener method of the classified kind, result and error returned unchanged, refusal => no wrapped call, no listener call, status code and response of the limit-exceeded classifier; " +
 			"non-trivial = the run contained a refusal, an error outcome and (streams) both directions; distinct = distinct choice tapes / event hashes",
